@@ -20,7 +20,8 @@ The model mirrors the code, quirks included:
 * hang up only if `totalRead == 0`; the ERR probe and the write branch are skipped after a hang-up;
 * `appendHup` appends `OnHup` (possibly nil) to `p.hups`, *then* detaches, then `done()`;
 * the close message makes `handler` return at once: later events of the batch are not
-  processed and `onhups` is not called (queued hang-ups are dropped).
+  processed; the wake-up branch calls `onhups()` before `return true`, so the hang-ups queued
+  earlier in the batch are still reported (the code before that fix is `Netpoll.Poll.HandlerOld`).
 -/
 namespace Netpoll.Poll
 
@@ -284,10 +285,11 @@ def handleLoop (buf0 : Nat) (st : Nat → OpSt) (hups : List (Nat × Bool)) : Li
       let r := handleLoop o.buf0 st' hups' es
       { r with tr := o.tr.map (e.id, ·) ++ r.tr }
 
-/-- `handler(events)`: the loop, then `onhups()` unless the loop returned early -/
+/-- `handler(events)`: the loop, then `onhups()` – after the last event, or in the wake-up branch
+right before `return true` (a script that ran dry inside a system call ends the model's run) -/
 def handleBatch (buf0 : Nat) (st : Nat → OpSt) (evs : List Ev) : BatchOut :=
   let r := handleLoop buf0 st [] evs
-  if r.exit || r.stuck then r
+  if r.stuck then r
   else { r with ran := (r.hups.filter (·.2)).map (·.1) }
 
 /-- everything that happened for the batch, in order: the handler's steps, then the hang-up
